@@ -37,7 +37,8 @@ func WithNodeSize(sizes map[string]graph.Size) Option {
 		o.params.NodeSizeFunc = func(n *ig.Node) {
 			// nodes that aren't listed in the map keep their size (zero or the fixed size)
 			if size, ok := sizes[n.ID]; ok {
-				n.Size = size
+				// only the dimensions: the position fields of the entry must not leak into the layout
+				n.W, n.H = size.W, size.H
 			}
 		}
 	}
